@@ -12,7 +12,10 @@
      4. the stream edge relation stream_E of a loop body, forward and periodic                  (stream_E_forward, stream_E_periodic)
      5. the doubled (rotated) kernel is the window [r, r + 2n) of the stream                    (doubled_window)
      6. transport  paths of create_dg (doubled K)  <->  Rotation.spath of stream_E               (vpath_to_spath, spath_to_vpath)
-     7. MAIN: rotation_glue, and its consequences for entry_of (lcd_entries before de-duplication). *)
+     7. MAIN: rotation_glue / rotation_glue_conv
+     8. consequences: rotation_raw (entries before de-duplication), rotation_lcd_entries (after), and for exact rationals
+        rotation_lcd_entries_Q (== sums, same members) and rotation_lcd_figure_Q; non-vacuity examples at the end.
+   See notes/C14.md for the exact statements and what is not claimed (float sums of the kept representative). *)
 From Coq Require Import ZArith List Bool String Lia Arith Permutation.
 From OV Require Import Model.Num Model.Pressure Model.Deps Proofs.DepsScan Proofs.LCD Proofs.Rotation.
 Import ListNotations.
